@@ -738,6 +738,56 @@ theorem iinv_discard (s : Inb) (sc : Nat) (hp : dcpForwardsResume = true) (h : I
     · intro g hg'; simp only at hg'; rw [hg] at hg'; cases hg'
     · intro g hg'; simp only at hg'; rw [hg] at hg'; cases hg'
 
+theorem IInv.congr {s s' : Inb} (h : IInv s) (h1 : s'.pausedSc = s.pausedSc) (h2 : s'.conn = s.conn)
+    (h3 : s'.gen = s.gen) (h4 : s'.log = s.log) : IInv s' := by
+  refine ⟨?_, ?_, ?_, ?_⟩
+  · intro g hg; rw [h4, h1]; exact h.exact g (by rw [← h2]; exact hg)
+  · rw [h4]; exact h.alt
+  · intro g hg; rw [h4]; exact h.fresh g (by rw [← h3]; exact hg)
+  · intro g hg; rw [h3]; exact h.connLe g (by rw [← h2]; exact hg)
+
+theorem IInv.raise {s : Inb} (h : IInv s) (e : IExn) : IInv (s.raise e) :=
+  ⟨fun g hg => by simpa [Inb.raise, lastPaused] using h.exact g hg, by simpa [Inb.raise, altOK] using h.alt,
+    fun g hg => by simpa [Inb.raise, lastPaused] using h.fresh g hg, h.connLe⟩
+
+theorem iinv_closeSub (hr : dcpForwardsResume = true) {s : Inb} (h : IInv s) (sc : Nat) : IInv (s.closeSub sc) := by
+  unfold Inb.closeSub
+  split
+  · exact iinv_discard _ sc hr (h.congr rfl rfl rfl rfl)
+  · exact h.raise _
+
+theorem iinv_runOuts (hr : dcpForwardsResume = true) (sc : Nat) (outs : List Gen.SubChannel.Output) :
+    ∀ {s : Inb}, IInv s → IInv (runOuts s sc outs) := by
+  induction outs with
+  | nil => intro s h; exact h
+  | cons o r ih =>
+    intro s h
+    cases o <;> simp only [runOuts]
+    case close_subchannel =>
+      split
+      · exact ih (iinv_closeSub hr h sc)
+      · exact h.raise _
+    case error_closed_close => exact h.raise _
+    case error_closed_write => exact h.raise _
+    all_goals exact ih h
+
+theorem iinv_scInput (hr : dcpForwardsResume = true) {s : Inb} (h : IInv s) (sc : Nat) (inp : Gen.SubChannel.Input) :
+    IInv (scInput s sc inp) := by
+  unfold scInput
+  split
+  · exact h.raise _
+  · exact iinv_runOuts hr sc _ (h.congr rfl rfl rfl rfl)
+
+theorem iinv_openSub (hr : dcpForwardsResume = true) {s : Inb} (h : IInv s) (sc : Nat) (half : Bool) :
+    IInv (openSub s sc half) := by
+  unfold openSub
+  split
+  · exact h.raise _
+  · split
+    · exact IInv.raise (s := { s with openSc := sAdd sc s.openSc }) (h.congr rfl rfl rfl rfl) _
+    · exact iinv_scInput hr (s := Inb.setSc { s with openSc := sAdd sc s.openSc } sc (Gen.SubChannel.init, half))
+        (h.congr rfl rfl rfl rfl) sc _
+
 theorem iinv_step (s : Inb) (op : IOp) (hp : dcpForwardsPause = true) (hr : dcpForwardsResume = true)
     (h : IInv s) : IInv (istep s op) := by
   cases op with
@@ -796,18 +846,18 @@ theorem iinv_step (s : Inb) (op : IOp) (hp : dcpForwardsPause = true) (hr : dcpF
       · intro g hg'; simp only at hg'; rw [hg] at hg'; cases hg'
   | resume sc => exact iinv_discard s sc hr h
   | stopProducing sc => exact iinv_discard s sc hr h
-  | opn sc =>
-    simp only [istep]
-    split
-    · exact ⟨fun g hg => by simpa [lastPaused] using h.exact g hg, by simpa [altOK] using h.alt,
-        fun g hg => by simpa [lastPaused] using h.fresh g hg, h.connLe⟩
-    · exact ⟨h.exact, h.alt, h.fresh, h.connLe⟩
-  | close sc =>
-    simp only [istep]
-    split
-    · exact iinv_discard { s with openSc := sDel sc s.openSc } sc hr ⟨h.exact, h.alt, h.fresh, h.connLe⟩
-    · exact ⟨fun g hg => by simpa [lastPaused] using h.exact g hg, by simpa [altOK] using h.alt,
-        fun g hg => by simpa [lastPaused] using h.fresh g hg, h.connLe⟩
+  | opn sc => exact iinv_openSub hr h sc false
+  | opnHalf sc => exact iinv_openSub hr h sc true
+  | close sc => exact iinv_closeSub hr h sc
+  | rclose sc => simp only [istep]; split
+                 · exact iinv_scInput hr h sc _
+                 · exact h
+  | lose sc => simp only [istep]; split
+               · exact h.raise _
+               · exact iinv_scInput hr h sc _
+  | loseW sc => simp only [istep]; split
+                · exact iinv_scInput hr h sc _
+                · exact h.raise _
 
 theorem iinit_inv : IInv {} :=
   ⟨(by intro g hg; cases hg), rfl, (by intro g _; rfl), (by intro g hg; cases hg)⟩
@@ -819,18 +869,116 @@ theorem ireach_inv (hp : dcpForwardsPause = true) (hr : dcpForwardsResume = true
 
 /-! ## Inbound: the pause requests of subchannels that are not closed -/
 
+theorem discard_pausedSc (s : Inb) (sc : Nat) : (s.discard sc).pausedSc = sDel sc s.pausedSc := by
+  unfold Inb.discard
+  split
+  · split
+    · unfold Inb.connResume; split <;> rfl
+    · rfl
+  · rfl
+
+theorem discard_openSc (s : Inb) (sc : Nat) : (s.discard sc).openSc = s.openSc := by
+  unfold Inb.discard
+  split
+  · split
+    · unfold Inb.connResume; split <;> rfl
+    · rfl
+  · rfl
+
+/-- what an operation on subchannel `sc` can do to `_paused_subchannels` and `_open_subchannels` -/
+def EffSame (s s' : Inb) : Prop := s'.pausedSc = s.pausedSc ∧ s'.openSc = s.openSc
+def EffClosed (s s' : Inb) (sc : Nat) : Prop :=
+  sc ∈ s.openSc ∧ s'.pausedSc = sDel sc s.pausedSc ∧ s'.openSc = sDel sc s.openSc
+def EffOpened (s s' : Inb) (sc : Nat) : Prop :=
+  sc ∉ s.openSc ∧ s'.pausedSc = s.pausedSc ∧ s'.openSc = sAdd sc s.openSc
+
+theorem closeSub_effect (s : Inb) (sc : Nat) : EffSame s (s.closeSub sc) ∨ EffClosed s (s.closeSub sc) sc := by
+  unfold Inb.closeSub
+  split
+  · rename_i h; right; exact ⟨h, by rw [discard_pausedSc], by rw [discard_openSc]⟩
+  · left; exact ⟨rfl, rfl⟩
+
+theorem runOuts_effect (sc : Nat) (outs : List Gen.SubChannel.Output) :
+    ∀ s : Inb, EffSame s (runOuts s sc outs) ∨ EffClosed s (runOuts s sc outs) sc := by
+  induction outs with
+  | nil => intro s; left; exact ⟨rfl, rfl⟩
+  | cons o r ih =>
+    intro s
+    cases o <;> simp only [runOuts]
+    case close_subchannel =>
+      split
+      · rename_i hopen
+        have h1 : (s.closeSub sc).pausedSc = sDel sc s.pausedSc ∧ (s.closeSub sc).openSc = sDel sc s.openSc := by
+          rcases closeSub_effect s sc with h | h
+          · unfold Inb.closeSub at h ⊢; simp only [hopen, if_true] at h ⊢
+            exact ⟨by rw [discard_pausedSc], by rw [discard_openSc]⟩
+          · exact h.2
+        rcases ih (s.closeSub sc) with h | h
+        · right; exact ⟨hopen, by rw [h.1, h1.1], by rw [h.2, h1.2]⟩
+        · exfalso; have := h.1; rw [h1.2] at this; exact (mem_sDel.1 this).2 rfl
+      · left; exact ⟨rfl, rfl⟩
+    case error_closed_close => left; exact ⟨rfl, rfl⟩
+    case error_closed_write => left; exact ⟨rfl, rfl⟩
+    all_goals exact ih s
+
+theorem scInput_effect (s : Inb) (sc : Nat) (inp : Gen.SubChannel.Input) :
+    EffSame s (scInput s sc inp) ∨ EffClosed s (scInput s sc inp) sc := by
+  unfold scInput
+  split
+  · left; exact ⟨rfl, rfl⟩
+  · exact runOuts_effect sc _ (s.setSc sc _)
+
+theorem scState_setSc (s : Inb) (sc : Nat) (x : Gen.SubChannel.State × Bool) : (s.setSc sc x).scState sc = x := by
+  simp [Inb.scState, Inb.setSc]
+
+/-- uses the generated table: connecting a protocol to a fresh SubChannel has no outputs -/
+theorem scInput_connect (s : Inb) (sc : Nat) (half : Bool) (hst : s.scState sc = (Gen.SubChannel.init, half)) :
+    EffSame s (scInput s sc (if half then .connect_protocol_half else .connect_protocol_full)) := by
+  have t1 : Gen.SubChannel.table Gen.SubChannel.init .connect_protocol_full = some (.open_full, []) := rfl
+  have t2 : Gen.SubChannel.table Gen.SubChannel.init .connect_protocol_half = some (.open_half, []) := rfl
+  unfold scInput
+  rw [hst]
+  cases half
+  · simp only [Bool.false_eq_true, if_false, t1]; exact ⟨rfl, rfl⟩
+  · simp only [if_true, t2]; exact ⟨rfl, rfl⟩
+
+theorem openSub_effect (s : Inb) (sc : Nat) (half : Bool) :
+    EffSame s (openSub s sc half) ∨ EffOpened s (openSub s sc half) sc := by
+  unfold openSub
+  split
+  · left; exact ⟨rfl, rfl⟩
+  · rename_i hno
+    split
+    · right; exact ⟨hno, rfl, rfl⟩
+    · right
+      have := scInput_connect (Inb.setSc { s with openSc := sAdd sc s.openSc } sc (Gen.SubChannel.init, half)) sc half
+        (scState_setSc _ sc _)
+      exact ⟨hno, this.1, this.2⟩
+
 /-- ghost bookkeeping, independent of `Inbound`'s own set -/
 structure Ghost where
   w : List Nat := []     -- subchannels whose application has an outstanding pause request
   cl : List Nat := []    -- subchannels that were closed (and not opened again)
 
-def gstep (s : Inb) (g : Ghost) : IOp → Ghost
+/-- a lifecycle operation on `sc`: if it closed `sc` its request dies with it; if it opened `sc`, `sc` is not closed any more -/
+def lifeG (s s' : Inb) (g : Ghost) (sc : Nat) : Ghost :=
+  if sc ∈ s.openSc ∧ sc ∉ s'.openSc then { w := sDel sc g.w, cl := sAdd sc g.cl }
+  else if sc ∉ s.openSc ∧ sc ∈ s'.openSc then { g with cl := sDel sc g.cl }
+  else g
+
+def gstep (s : Inb) (g : Ghost) (op : IOp) : Ghost :=
+  match op with
   | .pause sc => { g with w := sAdd sc g.w }
   | .resume sc => { g with w := sDel sc g.w }
   | .stopProducing sc => { g with w := sDel sc g.w }
-  | .close sc => if sc ∈ s.openSc then { w := sDel sc g.w, cl := sAdd sc g.cl } else g   -- its request dies with it
-  | .opn sc => if sc ∈ s.openSc then g else { g with cl := sDel sc g.cl }
-  | _ => g
+  | .use => g
+  | .stop => g
+  | .opn sc => lifeG s (istep s op) g sc
+  | .opnHalf sc => lifeG s (istep s op) g sc
+  | .close sc => lifeG s (istep s op) g sc
+  | .rclose sc => lifeG s (istep s op) g sc
+  | .lose sc => lifeG s (istep s op) g sc          -- a locally closing subchannel is still open until the peer's CLOSE
+  | .loseW sc => lifeG s (istep s op) g sc
 
 /-- environment: the application of a closed subchannel does not ask for a pause any more -/
 def iopOK (g : Ghost) : IOp → Prop
@@ -849,78 +997,103 @@ theorem IReachW.reach {s : Inb} {g : Ghost} (h : IReachW s g) : IReach s := by
   | init => exact IReach.init
   | step op _ _ ih => exact IReach.step op ih
 
-theorem discard_pausedSc (s : Inb) (sc : Nat) : (s.discard sc).pausedSc = sDel sc s.pausedSc := by
-  unfold Inb.discard
-  split
+/-- the effect of every lifecycle operation of the model -/
+theorem life_effect (s : Inb) (op : IOp) (sc : Nat)
+    (hop : op = .opn sc ∨ op = .opnHalf sc ∨ op = .close sc ∨ op = .rclose sc ∨ op = .lose sc ∨ op = .loseW sc) :
+    EffSame s (istep s op) ∨ EffOpened s (istep s op) sc ∨ EffClosed s (istep s op) sc := by
+  have lift : ∀ s' : Inb, (EffSame s s' ∨ EffClosed s s' sc) → EffSame s s' ∨ EffOpened s s' sc ∨ EffClosed s s' sc :=
+    fun s' h => h.elim Or.inl (fun h => Or.inr (Or.inr h))
+  rcases hop with rfl | rfl | rfl | rfl | rfl | rfl
+  · exact (openSub_effect s sc false).elim Or.inl (fun h => Or.inr (Or.inl h))
+  · exact (openSub_effect s sc true).elim Or.inl (fun h => Or.inr (Or.inl h))
+  · exact lift _ (closeSub_effect s sc)
+  · simp only [istep]; split
+    · exact lift _ (scInput_effect s sc _)
+    · exact Or.inl ⟨rfl, rfl⟩
+  · simp only [istep]; split
+    · exact Or.inl ⟨rfl, rfl⟩
+    · exact lift _ (scInput_effect s sc _)
+  · simp only [istep]; split
+    · exact lift _ (scInput_effect s sc _)
+    · exact Or.inl ⟨rfl, rfl⟩
+
+structure WantInv (s : Inb) (g : Ghost) : Prop where
+  eq : ∀ x, x ∈ g.w ↔ x ∈ s.pausedSc
+  ncl : ∀ x, x ∈ g.w → x ∉ g.cl
+
+theorem life_want {s s' : Inb} {g : Ghost} (sc : Nat) (ih : WantInv s g)
+    (heff : EffSame s s' ∨ EffOpened s s' sc ∨ EffClosed s s' sc) : WantInv s' (lifeG s s' g sc) := by
+  unfold lifeG
+  rcases heff with ⟨hp, ho⟩ | ⟨hno, hp, ho⟩ | ⟨hin, hp, ho⟩
+  · have h1 : ¬ (sc ∈ s.openSc ∧ sc ∉ s'.openSc) := by rw [ho]; tauto
+    have h2 : ¬ (sc ∉ s.openSc ∧ sc ∈ s'.openSc) := by rw [ho]; tauto
+    rw [if_neg h1, if_neg h2]
+    exact ⟨fun x => by rw [hp]; exact ih.eq x, ih.ncl⟩
+  · have h1 : ¬ (sc ∈ s.openSc ∧ sc ∉ s'.openSc) := fun h => hno h.1
+    have h2 : sc ∉ s.openSc ∧ sc ∈ s'.openSc := ⟨hno, by rw [ho]; simp⟩
+    rw [if_neg h1, if_pos h2]
+    exact ⟨fun x => by rw [hp]; exact ih.eq x, fun x hx hc => ih.ncl x hx (mem_sDel.1 hc).1⟩
+  · have h1 : sc ∈ s.openSc ∧ sc ∉ s'.openSc := ⟨hin, by rw [ho]; simp⟩
+    rw [if_pos h1]
+    refine ⟨fun x => by rw [hp]; simp only [mem_sDel, ih.eq x], ?_⟩
+    intro x hx hc
+    simp only [mem_sDel] at hx
+    rcases mem_sAdd.1 hc with h | h
+    · exact hx.2 h
+    · exact ih.ncl x hx.1 h
+
+theorem istep_pause_pausedSc (s : Inb) (sc : Nat) : (istep s (.pause sc)).pausedSc = sAdd sc s.pausedSc := by
+  simp only [istep]; split
   · split
-    · unfold Inb.connResume; split <;> rfl
+    · unfold Inb.connPause; split <;> rfl
     · rfl
   · rfl
 
-theorem istep_pausedSc (s : Inb) (op : IOp) :
-    (istep s op).pausedSc = match op with
-      | .pause sc => sAdd sc s.pausedSc
-      | .resume sc => sDel sc s.pausedSc
-      | .stopProducing sc => sDel sc s.pausedSc
-      | .close sc => if sc ∈ s.openSc then sDel sc s.pausedSc else s.pausedSc
-      | _ => s.pausedSc := by
-  cases op with
-  | use => simp only [istep]; split
-           · unfold Inb.connPause; split <;> rfl
-           · rfl
-  | stop => rfl
-  | pause sc =>
-    simp only [istep]; split
-    · split
-      · unfold Inb.connPause; split <;> rfl
-      · rfl
-    · rfl
-  | resume sc => exact discard_pausedSc s sc
-  | stopProducing sc => exact discard_pausedSc s sc
-  | opn sc => simp only [istep]; split <;> rfl
-  | close sc =>
-    simp only [istep]; split
-    · rw [discard_pausedSc]
-    · rfl
+theorem istep_use_pausedSc (s : Inb) : (istep s .use).pausedSc = s.pausedSc := by
+  simp only [istep]; split
+  · unfold Inb.connPause; split <;> rfl
+  · rfl
 
 /-- the ghost request set and `_paused_subchannels` have the same members, and nobody in it is closed -/
-theorem want_eq {s : Inb} {g : Ghost} (h : IReachW s g) :
-    (∀ sc, sc ∈ g.w ↔ sc ∈ s.pausedSc) ∧ (∀ sc, sc ∈ g.w → sc ∉ g.cl) := by
+theorem want_eq {s : Inb} {g : Ghost} (h : IReachW s g) : WantInv s g := by
   induction h with
-  | init => exact ⟨fun sc => by simp, fun sc hsc => by cases hsc⟩
-  | step op _ hok ih =>
-    obtain ⟨ih1, ih2⟩ := ih
-    refine ⟨fun sc => ?_, fun sc => ?_⟩
-    · rw [istep_pausedSc]
-      cases op with
-      | use => exact ih1 sc
-      | stop => exact ih1 sc
-      | pause x => simp only [gstep, mem_sAdd, ih1 sc]
-      | resume x => simp only [gstep, mem_sDel, ih1 sc]
-      | stopProducing x => simp only [gstep, mem_sDel, ih1 sc]
-      | opn x => simp only [gstep]; split <;> exact ih1 sc
-      | close x => simp only [gstep]; split <;> simp only [mem_sDel, ih1 sc]
-    · cases op with
-      | use => exact ih2 sc
-      | stop => exact ih2 sc
-      | pause x =>
-        simp only [gstep, mem_sAdd]
-        rintro (rfl | hsc)
-        · exact hok
-        · exact ih2 sc hsc
-      | resume x => simp only [gstep, mem_sDel]; exact fun hsc => ih2 sc hsc.1
-      | stopProducing x => simp only [gstep, mem_sDel]; exact fun hsc => ih2 sc hsc.1
-      | opn x =>
-        simp only [gstep]; split
-        · exact ih2 sc
-        · simp only [mem_sDel]; exact fun hsc hc => ih2 sc hsc hc.1
-      | close x =>
-        simp only [gstep]; split
-        · simp only [mem_sDel, mem_sAdd]
-          rintro ⟨hsc, hne⟩ (h1 | h1)
-          · exact hne h1
-          · exact ih2 sc hsc h1
-        · exact ih2 sc
+  | init => exact ⟨fun x => by simp, fun x hx => by cases hx⟩
+  | @step s g op _ hok ih =>
+    cases op with
+    | use => exact ⟨fun x => by rw [istep_use_pausedSc]; exact ih.eq x, ih.ncl⟩
+    | stop => exact ⟨ih.eq, ih.ncl⟩
+    | pause sc =>
+      refine ⟨fun x => by rw [istep_pause_pausedSc]; simp only [gstep, mem_sAdd, ih.eq x], ?_⟩
+      intro x hx
+      simp only [gstep, mem_sAdd] at hx ⊢
+      rcases hx with rfl | hx
+      · exact hok
+      · exact ih.ncl x hx
+    | resume sc =>
+      exact ⟨fun x => by simp only [istep, discard_pausedSc, gstep, mem_sDel, ih.eq x],
+        fun x hx => ih.ncl x (by simp only [gstep, mem_sDel] at hx; exact hx.1)⟩
+    | stopProducing sc =>
+      exact ⟨fun x => by simp only [istep, discard_pausedSc, gstep, mem_sDel, ih.eq x],
+        fun x hx => ih.ncl x (by simp only [gstep, mem_sDel] at hx; exact hx.1)⟩
+    | opn sc => exact life_want sc ih (life_effect s _ sc (by simp))
+    | opnHalf sc => exact life_want sc ih (life_effect s _ sc (by simp))
+    | close sc => exact life_want sc ih (life_effect s _ sc (by simp))
+    | rclose sc => exact life_want sc ih (life_effect s _ sc (by simp))
+    | lose sc => exact life_want sc ih (life_effect s _ sc (by simp))
+    | loseW sc => exact life_want sc ih (life_effect s _ sc (by simp))
+
+/-- a local `loseConnection()` / `loseWriteConnection()` never touches `_paused_subchannels` unless it
+    completes the close (then the subchannel leaves `_open_subchannels` in the same step) -/
+theorem local_close_effect (s : Inb) (sc : Nat) :
+    (EffSame s (istep s (.lose sc)) ∨ EffClosed s (istep s (.lose sc)) sc) ∧
+    (EffSame s (istep s (.loseW sc)) ∨ EffClosed s (istep s (.loseW sc)) sc) := by
+  constructor
+  · simp only [istep]; split
+    · exact Or.inl ⟨rfl, rfl⟩
+    · exact scInput_effect s sc _
+  · simp only [istep]; split
+    · exact scInput_effect s sc _
+    · exact Or.inl ⟨rfl, rfl⟩
 
 /-! ## building concrete reachable configurations (for the non-vacuity examples) -/
 
